@@ -519,6 +519,6 @@ def run(tier, seed):
 MANIFEST = {
     "engine": "E",
     "technique": "exhaustive small-scope enumeration of (parent kind x child kind(s) x opening capability x link kinds along a depth-3 chain) on the real DirectoryNode/NodeMaker over memory-backed files, with an authority model and a leak search over the stored plaintext",
-    "text": "Every single child and ordered pair of children from a catalogue of all capability kinds (with real nested sub-directories) is stored in SDMF and MDMF directories and read back through the write-cap and the read-cap; every chain root->d1->d2->leaf over directory kinds and rw/ro links is built. Along every path without write authority the real nodes must expose no write-cap, no write key and refuse all seven mutating operations; the stored directory bytes are searched for every child secret (raw, hex, base32 at all bit alignments) and the encrypted write-cap field is attacked with every key derivable from the read-cap. A read-cap holder who knows ONE child's write-cap mounts the known-plaintext attack ct_i xor ct_j xor rw_i on every pair of entries; a future-format cap offered as write-cap only is in the catalogue.",
+    "text": "Every single child and ordered pair of children from a catalogue of all capability kinds (with real nested sub-directories) is stored in SDMF and MDMF directories and read back through the write-cap and the read-cap; every chain root->d1->d2->leaf over directory kinds and rw/ro links is built. Along every path without write authority the real nodes must expose no write-cap, no write key and refuse all seven mutating operations; the stored directory bytes are searched for every child secret (raw, hex, base32 at all bit alignments) and the encrypted write-cap field is attacked with every key derivable from the read-cap. A read-cap holder who knows ONE child's write-cap mounts the known-plaintext attack ct_i xor ct_j xor rw_i on every pair of entries; a future-format cap offered as write-cap only is in the catalogue. Known write-caps that are only alleged read-only/immutable are offered in the read slot as probes.",
     "note": "Small scope and a fixed list of attack keys: this finds structural mistakes (wrong key, wrong slot, missing read-only context), it is not a cryptographic proof. The mutable-file encryption layer is replaced by a dict holding the plaintext.",
 }
